@@ -6,9 +6,10 @@ from vlib.harness import Violation
 
 PID = "C09"
 RULE = ("for every row of pytezos' base58 table (enumerated exhaustively): payloads all-zero / all-ones / random of the "
-        "row's length (the two extremes prove prefix+length for all 2^(8n) payloads by monotonicity of base58); "
+        "row's length, payloads containing the binary prefix of their own or another kind, runs of zeros at either end (the two extremes prove prefix+length for all 2^(8n) payloads by monotonicity of base58); "
         "corrupted strings: one character changed/dropped/added, human prefix swapped with another row's, re-encoded "
-        "under a neighbouring binary prefix with a valid checksum, payload length +-1 with valid checksum, random "
+        "under a neighbouring binary prefix with a valid checksum, payload length +-1 with valid checksum, trailing four bytes "
+        "related to the checksum but different (other windows of the double-SHA256 digest, single SHA256, reversed, rotated), random "
         "base58 strings. Oracle: own base58check + Tezos prefix registry: encode has the documented prefix/length "
         "and decodes back; reference-invalid => base58_decode raises and every is_* predicate is false; no string is "
         "valid for two kinds; every ordered pair of kinds is decoded back to back (no state may leak between calls); hex spellings "
@@ -135,12 +136,25 @@ def replay(case):
 
 
 def _mutations(draw, s, rows):
-    kind = draw(st.sampled_from(["chg", "chg", "drop", "add", "swap-human", "near-bin", "len+1", "len-1", "resum", "pad", "pad", "hex"]))
+    kind = draw(st.sampled_from(["chg", "chg", "drop", "add", "swap-human", "near-bin", "len+1", "len-1", "resum", "pad", "pad", "hex", "cksum", "cksum"]))
     raw = rc.b58check_decode(s)
     if kind == "chg":
         i = draw(st.integers(0, len(s) - 1))
         c = draw(st.sampled_from(rc.ALPHABET + "0OIl"))
         return kind, s[:i] + c + s[i + 1:]
+    if kind == "cksum":  # four trailing bytes related to the right checksum, but not it
+        import hashlib
+        d1 = hashlib.sha256(raw).digest()
+        d2 = hashlib.sha256(d1).digest()
+        good = d2[:4]
+        k = draw(st.integers(1, 28))
+        cands = [d2[k:k + 4], d2[-4:], good[::-1], d1[:4], hashlib.sha256(hashlib.sha256(raw[1:]).digest()).digest()[:4],
+                 good[1:] + good[:1], bytes([good[0] ^ 0x80]) + good[1:], good[:3] + bytes([(good[3] + 1) % 256]), b"\x00" * 4,
+                 hashlib.blake2b(raw, digest_size=4).digest()]
+        c = draw(st.sampled_from(cands[:2] * 3 + cands))
+        if c == good:
+            c = bytes([c[0] ^ 1]) + c[1:]
+        return kind, rc.b58encode(raw + c)
     if kind == "hex":  # the hexadecimal spelling of a valid encoding (some helpers are hex-tolerant): not an encoding of any kind
         h = s.encode().hex()
         return kind, draw(st.sampled_from([h, "0x" + h, h.upper()]))
@@ -191,11 +205,24 @@ def run(h):
 
         @st.composite
         def s(draw):
-            mode = draw(st.integers(0, 4))
+            mode = draw(st.integers(0, 7))
             if mode == 0:
                 p = b"\x00" * plen
             elif mode == 1:
                 p = b"\xff" * plen
+            elif mode in (2, 3):  # the payload contains binary prefixes (its own kind's, or another kind's), once or repeatedly
+                p = bytearray(draw(st.binary(min_size=plen, max_size=plen)))
+                for _ in range(draw(st.integers(1, 3))):
+                    pre = rows[i][2] if draw(st.integers(0, 2)) else draw(st.sampled_from(rows))[2]
+                    pre = pre[:plen]
+                    at = draw(st.sampled_from([0, 0, plen - len(pre)]) | st.integers(0, plen - len(pre)))
+                    p[at:at + len(pre)] = pre
+                p = bytes(p)
+            elif mode == 4:  # runs of zeros / one repeated byte at either end
+                k = draw(st.integers(1, plen))
+                fill = draw(st.sampled_from([b"\x00", b"\x00", b"\xff", b" ", b"1"]))
+                body = draw(st.binary(min_size=plen - k, max_size=plen - k))
+                p = fill * k + body if draw(st.booleans()) else body + fill * k
             else:
                 p = draw(st.binary(min_size=plen, max_size=plen))
             return {"mode": "valid", "row": i, "payload": p.hex()}
@@ -205,7 +232,9 @@ def run(h):
         oracle(case)
         p = bytes.fromhex(case["payload"])
         ext = p in (b"\x00" * len(p), b"\xff" * len(p))
-        stats.case(case, ext, "valid:" + ("extreme" if ext else "random"),
+        own = rows[case["row"]][2] in p
+        ext = ext or own
+        stats.case(case, ext, "valid:" + ("extreme" if not own else "contains-own-prefix") if ext else "valid:random",
                    sample={"kind": rows[case["row"]][4], "payload": case["payload"][:16] + "…"})
 
     # decoding one kind right after another: every ordered pair of table rows, on one process (no state may leak between calls)
